@@ -111,6 +111,17 @@ Tag World::foreign_tag(int b, int slot) {
     if ((slot & 1) == 0) { for (auto &x : F.tags()) if (L.hasTag(x.name()) && !L.hasTag(x.id())) { cnt.inc("foreign.namesake"); return x; } }
     return tag_at(b + 1, slot);
 }
+
+// A name given as "@fit:<T>" stands for a name of exactly the length that makes the stored path of the new entity (container path + '/'
+// + name) T characters long; T is drawn next to powers of two.  Path and name lengths are where fixed-size buffers meet user input.
+std::string long_name(int len) { std::string n = "L" + std::to_string(len) + "_"; while ((int) n.size() < len) n += (char) ('a' + (n.size() % 26)); n.resize((size_t) (len < 1 ? 1 : len)); return n; }
+std::string World::resolve_name(const std::string &s, const std::string &container) {
+    if (s.compare(0, 5, "@fit:") != 0) return s;
+    int T = atoi(s.c_str() + 5);
+    int len = T - (int) container.size() - 1;
+    cnt.inc("names.fitted_to_path_length");
+    return long_name(len < 1 ? 1 : len);
+}
 std::string World::pick_type(int sel) {
     static const char *t[] = {"t", "nix.test", "type with space", "t", "t", "t"};
     unsigned u = (unsigned) sel % 40;
@@ -227,7 +238,7 @@ int World::exec_entity(const Op &op) {
     switch (op.kind) {
     // ------------------------------------------------------------------ file level
     case OP_create_block: {
-        std::string name = op.s;
+        std::string name = resolve_name(op.s, "/data");
         if (a[5] == 1 && f.blockCount()) name = f.getBlock((ndsize_t) 0).id();
         arg_class = f.hasBlock(name) ? "dup" : (name.empty() || name.find('/') != std::string::npos) ? "bad-name" : "fresh";
         TRY(REMEMBER(0, block, f.createBlock(name, pick_type(a[0]))));
@@ -242,7 +253,7 @@ int World::exec_entity(const Op &op) {
     case OP_create_section: {
         std::vector<Section> v = all_sections();
         unsigned p = ((unsigned) a[0]) % (v.size() + 1);
-        std::string name = op.s;
+        std::string name = resolve_name(op.s, "/metadata");
         if (p == v.size() || section_depth(v[p]) >= 4) {
             if (a[5] == 1 && f.sectionCount()) name = f.getSection((ndsize_t) 0).id();
             arg_class = f.hasSection(name) ? "dup" : (name.empty() || name.find('/') != std::string::npos) ? "bad-name" : "fresh";
@@ -269,7 +280,7 @@ int World::exec_entity(const Op &op) {
         Block b = blk(a[0]); if (!b) return 2;
         std::vector<Source> v = all_sources(b);
         unsigned p = ((unsigned) a[1]) % (v.size() + 1);
-        std::string name = op.s;
+        std::string name = resolve_name(op.s, "/data/" + b.name() + "/sources");
         if (p == v.size() || source_depth(b, v[p]) >= 4) {
             if (a[5] == 1 && b.sourceCount()) name = b.getSource((ndsize_t) 0).id();
             arg_class = b.hasSource(name) ? "dup" : (name.empty() || name.find('/') != std::string::npos) ? "bad-name" : "fresh";
@@ -313,7 +324,7 @@ int World::exec_entity(const Op &op) {
         Rng r(op.sub);
         std::vector<double> pos; int n = r.range(0, 3);
         for (int i = 0; i < n; i++) pos.push_back((double) r.range(-2, 10) * 0.5);
-        std::string name = op.s;
+        std::string name = resolve_name(op.s, "/data/" + b.name() + "/tags");
         if (a[5] == 1 && b.tagCount()) name = b.getTag((ndsize_t) 0).id();
         arg_class = b.hasTag(name) ? "dup" : (name.empty() || name.find('/') != std::string::npos) ? "bad-name" : "fresh";
         TRY(REMEMBER(3, tag, b.createTag(name, pick_type(a[1]), pos)));
@@ -333,7 +344,7 @@ int World::exec_entity(const Op &op) {
         if (variant == 0) { pos = DataArray(); arg_class = "none-positions"; }
         else if (variant == 1 && f.blockCount() > 1) { pos = foreign_arr(a[0], a[2]); arg_class = "foreign-positions"; if (pos && b.hasDataArray(pos.id())) arg_class = "own-positions"; }
         else { pos = arr_at(a[0], a[2]); arg_class = "own-positions"; if (!pos) arg_class = "none-positions"; }
-        std::string name = op.s;
+        std::string name = resolve_name(op.s, "/data/" + b.name() + "/multi_tags");
         if (b.hasMultiTag(name)) arg_class += ",dup";
         else if (name.empty() || name.find('/') != std::string::npos) arg_class += ",bad-name";
         TRY(REMEMBER(4, mtag, b.createMultiTag(name, pick_type(a[1]), pos)));
@@ -348,7 +359,7 @@ int World::exec_entity(const Op &op) {
     }
     case OP_create_group: {
         Block b = blk(a[0]); if (!b) return 2;
-        std::string name = op.s;
+        std::string name = resolve_name(op.s, "/data/" + b.name() + "/groups");
         arg_class = b.hasGroup(name) ? "dup" : (name.empty() || name.find('/') != std::string::npos) ? "bad-name" : "fresh";
         TRY(REMEMBER(5, group, b.createGroup(name, pick_type(a[1]))));
     }
